@@ -228,3 +228,68 @@ def tree_eq(it, a, b, where="value"):
             return tree_eq(it, pa.tree, pb.tree, where + ".ext")
         return leaf_eq(it, pa, pb)
     return False, f"{where}: unknown node"
+
+
+# ---- deep observation of values (identity of kind, not only equality class) ---------------------------------------------------------
+def deep_obs(it, v, depth=0):
+    """Structural observation: class names at every level, flavour of paths, packed members of composite field types; symbolic leaves stay terms."""
+    if depth > 12:
+        return ("...",)
+    if isinstance(v, PObj):
+        if v.cls.find("_pack") is not None and v.cls.find("__slots__") is not None and isinstance(v.cls.find("__slots__"), tuple) and "_generated" in v.cls.find("__slots__"):
+            return ("record", it.getattr_(it.getattr_(v, "_desc"), "name"), tuple(tuple(f) for f in it.call(it.getattr_(it.getattr_(v, "_desc"), "get_field_tuples"), [], {})),
+                    tuple((k, deep_obs(it, v.attrs.get(k), depth + 1)) for k in v.cls.find("__slots__")))
+        if v.cls.name == "GroupedRecord":
+            return ("grouped", it.unbase(v.attrs.get("name")), tuple(deep_obs(it, r, depth + 1) for r in v.attrs.get("records", [])))
+        if v.cls.name == "digest":
+            return ("obj", "digest", tuple((a, deep_obs(it, it.getattr_(v, a), depth + 1)) for a in ("md5", "sha1", "sha256")))
+        if v.has_base:
+            b = v.base
+            if isinstance(b, bool):
+                b = int(b)  # an int subclass instance holds an int value whatever it was built from
+            return ("obj", v.cls.name, deep_obs(it, b, depth + 1))
+        return ("obj", v.cls.name, tuple((k, deep_obs(it, a, depth + 1)) for k, a in sorted(v.attrs.items()) if not k.startswith("__")))
+    if isinstance(v, (SInt, SStr, SBool, SBytes)):
+        return ("sym", type(v).__name__, v.t)
+    if isinstance(v, Opaque):
+        return ("opaque", v.t)
+    if isinstance(v, (list, tuple)):
+        return (type(v).__name__, tuple(deep_obs(it, e, depth + 1) for e in v))
+    if isinstance(v, dict):
+        return ("dict", tuple((deep_obs(it, k, depth + 1), deep_obs(it, e, depth + 1)) for k, e in v.items()))
+    if isinstance(v, float):
+        return ("float", v.hex())
+    import datetime as _dtm
+    if isinstance(v, _dtm.datetime):
+        return ("datetime", v.isoformat(), None if v.utcoffset() is None else v.utcoffset().total_seconds(), v.fold)
+    return (type(v).__name__, repr(v))
+
+
+def obs_eq(a, b, where="value"):
+    """(z3 Bool | bool, complaint) for two observations."""
+    if isinstance(a, tuple) and isinstance(b, tuple) and a and b and a[0] == "sym" and b[0] == "sym":
+        if a[1] != b[1]:
+            return False, f"{where}: {a[1]} became {b[1]}"
+        return a[2] == b[2], f"{where}: value differs"
+    if isinstance(a, tuple) and isinstance(b, tuple) and a and b and (a[0] == "sym") != (b[0] == "sym"):
+        s_, c_ = (a, b) if a[0] == "sym" else (b, a)
+        kinds = {"SInt": "int", "SStr": "str", "SBool": "bool"}
+        if kinds.get(s_[1]) == c_[0]:
+            import ast as _ast
+            val = _ast.literal_eval(c_[1])
+            return s_[2] == (z3.IntVal(val) if s_[1] == "SInt" else z3.StringVal(val) if s_[1] == "SStr" else z3.BoolVal(val)), f"{where}: value differs"
+        return False, f"{where}: {a[:2]!r} became {b[:2]!r}"
+    if isinstance(a, tuple) and isinstance(b, tuple):
+        if len(a) != len(b):
+            return False, f"{where}: {a!r:.120} became {b!r:.120}"
+        conj = []
+        for i, (x, y) in enumerate(zip(a, b)):
+            g, why = obs_eq(x, y, where if not (isinstance(x, tuple)) else where)
+            if g is False:
+                return False, why
+            if g is not True:
+                conj.append(g)
+        return (z3.And(*conj) if conj else True), f"{where}: a component differs"
+    if z3.is_expr(a) or z3.is_expr(b):
+        return (a == b) if (z3.is_expr(a) and z3.is_expr(b)) else False, f"{where}: symbolic / concrete mismatch"
+    return (a == b), f"{where}: {a!r:.80} became {b!r:.80}"
